@@ -337,16 +337,21 @@ def validate(items, name):
         groups.setdefault(json.dumps(c, sort_keys=True), []).append(i)
     verdicts = [None] * len(items)
     states = 0
-    for gi, (ck, idxs) in enumerate(sorted(groups.items())):
+    def one(arg):
+        gi, (ck, idxs) = arg
         c = json.loads(ck)
         root = "RtTr"
         L = consts_module(c, root, "RuntimeTrace")
         L.append("====")
         consts = CONSTS_CFG + " AllowSigint = TRUE\n AllowShutdown = TRUE\n AllowSecond = TRUE"
-        vs, st = traceval.validate("RuntimeTrace", [{"events": items[i][1]} for i in idxs], consts, timeout=1500, module_text="\n".join(L), root=root, name="%s-g%d" % (name, gi), parallel=max(2, min(12, len(idxs) // 40 + 1)))
-        states += st
-        for i, v in zip(idxs, vs):
-            verdicts[i] = v
+        return idxs, traceval.validate("RuntimeTrace", [{"events": items[i][1]} for i in idxs], consts, timeout=1500, module_text="\n".join(L), root=root, name="%s-g%d" % (name, gi), parallel=max(2, min(12, len(idxs) // 40 + 1)))
+
+    # one TLC process (at least) per group of constants: the groups are validated side by side
+    with ThreadPoolExecutor(max_workers=10) as ex:
+        for idxs, (vs, st) in ex.map(one, enumerate(sorted(groups.items()))):
+            states += st
+            for i, v in zip(idxs, vs):
+                verdicts[i] = v
     return verdicts, states
 
 
@@ -363,8 +368,12 @@ def run_family(ctx, shapes, *, names, allow, mc_invariants, mc_properties, per_s
         s, _ = simulate_scripts(c, "Sim%s%d" % (label, i), allow, num=per_shape * 3, depth=depth, seed=ctx.seed + i)
         return c, r, s
 
+    import time as _t
+    _tm = _t.time()
     with ThreadPoolExecutor(max_workers=6) as ex:
         results = list(ex.map(mc, range(len(shapes))))
+    if os.environ.get("VP_TIMING"):
+        print("TIMING %s model+simulate %d shapes %.1fs" % (label, len(shapes), _t.time() - _tm), file=sys.stderr)
     scenarios = []
     for i, (c, r, paths) in enumerate(results):
         ctx.model_must_hold("Runtime model %s shape %d" % (label, i), r)
@@ -389,6 +398,9 @@ def run_family(ctx, shapes, *, names, allow, mc_invariants, mc_properties, per_s
     _t0 = _t.time()
     raws = run_all(scenarios)
     ctx.extra["real_runs_wall_s"] = round(_t.time() - _t0, 1)
+    if os.environ.get("VP_TIMING"):
+        print("TIMING %s real runs %d scenarios %.1fs" % (label, len(scenarios), _t.time() - _t0), file=sys.stderr)
+    _tv = _t.time()
     items, kept = [], []
     for scn, raw in zip(scenarios, raws):
         if raw.get("error"):
@@ -398,6 +410,8 @@ def run_family(ctx, shapes, *, names, allow, mc_invariants, mc_properties, per_s
         kept.append(scn)
     verdicts, states = validate(items, label)
     ctx.extra["trace_states"] = ctx.extra.get("trace_states", 0) + states
+    if os.environ.get("VP_TIMING"):
+        print("TIMING %s validation %.1fs" % (label, _t.time() - _tv), file=sys.stderr)
     for scn, (c, ev), v in zip(kept, items, verdicts):
         ctx.traces_total += 1
         ctx.events_total += len(ev)
